@@ -79,10 +79,14 @@ func (c *compiler) expandExpression(expr []token, line int) ([]token, error) {
 	input := expr
 	var output []token
 
+	// the first pass has no previous output; later passes continue from it
+	// even when it is empty (a symbol defined with an empty value)
+	started := false
 	for !exprEqual(input, output) {
-		if len(output) > 0 {
+		if started {
 			input = output
 		}
+		started = true
 
 		output = make([]token, 0)
 		for _, tok := range input {
